@@ -321,7 +321,7 @@ def units(tier, seed):
                 rec, reps = ('utpm', 2, 1), [('utpm', 2, 1)]
             out.append(Unit('C05/%s/rec=%s,replay=%s' % (prog.name, rec, reps), 'symx.props.c05', 'h_replay',
                             {'pname': prog.name, 'rec': rec, 'replays': reps}, dict(opts)))
-    nrand = 8 if tier == 'quick' else 300
+    nrand = 8 if tier == 'quick' else 900
     for i in range(nrand):
         name = 'random(seed=%d,len=%d)' % (5000 + 1000 * seed + i, 3 + i % 6)
         rec, reps = combos[i % len(combos)]
